@@ -80,6 +80,12 @@ Definition slots_case (l : list (Z * Z)) : string :=
 Definition fcr_case (amps : list (list band)) (si : band) : string :=
   join "," (map (fun b => append (q_s (fst b)) (append ":" (q_s (snd b)))) (find_common_range amps si)).
 
+(* find_common_range on dictionaries that carry spacing entries: k = 0 key absent, 1 None, 2 a value *)
+Definition sb (lo hi : Q) (k : Z) (s : Q) : sband :=
+  (lo, hi, if k =? 0 then None else if k =? 1 then Some None else Some (Some s)).
+Definition fcrsp_case (amps : list (list sband)) (si : band) : string :=
+  join "," (map (fun b => append (q_s (fst b)) (append ":" (q_s (snd b)))) (find_common_range_sp amps si)).
+
 (* ---- (c) build_oms_list on an extracted graph ---- *)
 Definition nd (u : Z) (k : Z) (s : list Z) (b : list band) : node :=
   mkN u (if k =? 0 then KRoadm else if k =? 1 then KTrx else if k =? 2 then KAmp else KOther) s b.
@@ -90,9 +96,9 @@ Definition oms_s (o : oms_rec) : string :=
 
 Definition net_case (g : graph) (si : band) (d : list line) : string :=
   match build_oms_list g si with
-  | Err e => append (err_s e) (append "#" (append (bs (chain_wf_b g d)) (bs (net_hyps_b g si d))))
+  | Err e => append (err_s e) (append "#" (append (bs (chain_wf_b g d)) (append (bs (net_hyps_b g si d)) (bs (net_local_hyps_b g si)))))
   | Ok r =>
       join "#" [join "/" (map oms_s r);
-                append (bs (chain_wf_b g d)) (bs (net_hyps_b g si d));
+                append (bs (chain_wf_b g d)) (append (bs (net_hyps_b g si d)) (bs (net_local_hyps_b g si)));
                 ozlist_s (map (fun n => last_owner (map el_ids r) (uid n) 0 None) g)]
   end.
